@@ -2,7 +2,9 @@
 (***************************************************************************)
 (* Judgement of observations of the real loaders against H of C01 / C04.   *)
 (* One record per DISTINCT (requirement, observation) pair seen by the     *)
-(* harness:  [c, mustErr, undisp, st, ex, ty, eff]; undisp: every          *)
+(* harness:  [c, mustErr, undisp, free, st, ex, ty, eff]; free: the        *)
+(* application itself registered the tag on this class (ConstructPrelude:  *)
+(* req.free), nothing is demanded; undisp: every                           *)
 (* offending node is one the constructor model never dispatches on - the   *)
 (* named case class of the known finding "structural-use".  The            *)
 (* requirement is rebuilt                                                  *)
@@ -16,7 +18,7 @@ VARIABLE tid
 Range(s) == {s[i] : i \in DOMAIN s}
 
 Judge(t) ==
-  LET r == [mustErr |-> t.mustErr, okTypes |-> OkTypes(t.c), okEff |-> OkEff(t.c), yamlOnly |-> YamlOnly(t.c), free |-> FALSE]
+  LET r == [mustErr |-> t.mustErr, okTypes |-> OkTypes(t.c), okEff |-> OkEff(t.c), yamlOnly |-> YamlOnly(t.c), free |-> t.free]
       o == [st |-> t.st, ex |-> t.ex, ty |-> Range(t.ty), eff |-> Range(t.eff)]
   IN  IF Sat(o, r) THEN [ok |-> TRUE, why |-> "-"]
       ELSE IF t.undisp /\ Sat(o, [r EXCEPT !.mustErr = FALSE]) THEN [ok |-> FALSE, why |-> "not rejected (undispatched)"]
